@@ -128,7 +128,7 @@ def run(ctx):
                 merged = newr if ow else list(dict(dict(sess.cur), **dict(newr)).items())
                 if cyclic(merged, dflt):
                     continue
-                sess.set_rules(newr, overwrite=ow, how=rng.choice(['rules_obj', 'dict', 'own_default']))
+                sess.set_rules(newr, overwrite=ow, how=rng.choice(['rules_obj', 'dict', 'own_default']), scribble=rng.random() < 0.5)
             # (Enforcer.clear() is not part of these sessions: it resets the enforcer's default-rule
             #  attribute but the rule store keeps the old one until the next replacing set_rules; the
             #  statement does not say which of the two "is configured" then)
